@@ -167,7 +167,9 @@ func main() {
 			fmt.Fprintf(out, "{\"begin\":%d}\n", i)
 			out.Flush()
 			d := generate(*prop, *tier, *base, i)
+			t0 := time.Now()
 			res := execute(d)
+			res.Stats.WallMs = time.Since(t0).Milliseconds()
 			if len(res.Violations) == 0 {
 				res.Switches = nil
 			}
